@@ -168,9 +168,29 @@ def r2(ctx, F, eff):
     if r is None:
         ctx.missing('C04.R2', RUN_REMOTE)
     n = 0
+    def creation_site(body):
+        pb = F.body(body.parent) if body.parent else None
+        if pb is None:
+            return None
+        for bi, blk in enumerate(pb.blocks):
+            for st in blk['stmts']:
+                rv = st['rv']
+                if rv['k'] == 'agg' and rv.get('ak') in ('closure', 'coroutine') and norm(rv['def']) == body.path:
+                    return pb, bi
+        return None
+
+    def direction_guard(body, bb, want, depth=0):
+        """block `bb` of `body` runs only in direction `want`: guarded by that arm here, or the (nested) body is created under it"""
+        arms = dir_arms(F, body)
+        if arms.get(want) and flow_of(body).cfg.edges_guard(arms[want], bb):
+            return True
+        cs = creation_site(body)
+        if cs is None or depth > 4:
+            return False
+        return direction_guard(cs[0], cs[1], want, depth + 1)
+
     for body in F.nested(RUN_REMOTE) + F.nested('incremental::apply_remote_deletes'):
         f2 = flow_of(body)
-        arms = dir_arms(F, body)
         for bb, kind, what in eff.effect_sites(body):
             if kind == 'task':
                 continue
@@ -182,12 +202,10 @@ def r2(ctx, F, eff):
             short = what.split('::')[-1] if kind != 'spawn' else 'ssh'
             n += 1
             if local_mut:
-                ok = bool(arms.get('Pull')) and f2.cfg.edges_guard(arms['Pull'], bb)
-                ctx.check(ok, 'C04.R2', '%s:%s@Pull' % (body.path.split('::{')[0].split('::')[-1], short), 'local mutation only in the Pull direction',
+                ctx.check(direction_guard(body, bb, 'Pull'), 'C04.R2', '%s:%s@Pull' % (body.path.split('::{')[0].split('::')[-1], short), 'local mutation only in the Pull direction',
                           'a local file-system mutation (%s) is reachable in the Push direction: the source tree would be modified' % short, term_loc(body, bb))
             if remote_mut:
-                ok = bool(arms.get('Push')) and f2.cfg.edges_guard(arms['Push'], bb)
-                ctx.check(ok, 'C04.R2', '%s:%s@Push' % (body.path.split('::{')[0].split('::')[-1], short), 'mutating remote command only in the Push direction',
+                ctx.check(direction_guard(body, bb, 'Push'), 'C04.R2', '%s:%s@Push' % (body.path.split('::{')[0].split('::')[-1], short), 'mutating remote command only in the Push direction',
                           'a mutating remote command (%s) is reachable in the Pull direction: the remote source would be modified' % short, term_loc(body, bb))
     if n < 3:
         ctx.missing('C04.R2', 'run_remote effect sites (found %d)' % n)
@@ -340,6 +358,23 @@ def r5(ctx, F, eff):
                 # only writes into a child's stdin matter here
                 mut_step = any('ChildStdin' in b.local_ty(o.key) for o in fl.origins(t['args'][0]) if o.kind in ('param',)) or \
                     any('ChildStdin' in b.local_ty(l) for l in range(len(b.locals)) if b.local_name(l) == 'stdin')
+            # crate-local mutating helpers and inline async blocks whose output is a Result
+            target = None
+            if c in F.bodies and c != b.path and eff.is_mutating(c):
+                target = c
+            elif callee(t) == 'std::future::IntoFuture::into_future':
+                for o in fl.origins(t['args'][0]):
+                    if o.kind == 'agg' and o.key in F.bodies and eff.is_mutating(o.key):
+                        target = o.key
+            if target is not None and callee(t) != 'std::future::Future::poll':
+                tb = F.body(target)
+                out_ty = tb.local_ty(0)
+                if 'Result' not in out_ty:
+                    inner = [x for x in F.nested(target) if x.kind == 'coroutine']
+                    out_ty = inner[0].local_ty(0) if inner else out_ty
+                if 'Result' in out_ty:
+                    mut_step = True
+                    short = target.split('::{')[0].split('::')[-1] + ('{async block}' if '::{' in target else '')
             if not mut_step or c.endswith('OpenOptions::open'):
                 continue
             n += 1
@@ -407,6 +442,8 @@ def result_dropped(fl, bb):
         # the awaited value: moved once into a temp that is only dropped?
         cur = r
         for _ in range(4):
+            if cur == 0:
+                break      # returned to the caller
             us = [u for u in fl.uses.get(cur, []) if u[2] != 'drop']
             if not us:
                 return True
